@@ -13,3 +13,4 @@ import TransportVerif.Props.C13
 import TransportVerif.Props.C15
 import TransportVerif.Props.C08
 import TransportVerif.Props.C14
+import TransportVerif.Props.C10
